@@ -6,6 +6,8 @@ import Mappy.Model.Printer
 import Mappy.Model.Includes
 import Mappy.Model.Expr
 import Mappy.Gen.Props
+import Mappy.Model.Versioning
+import Mappy.Gen.Schemas
 open Lean Mappy Mappy.Wire
 
 namespace Mappy.Driver
@@ -146,6 +148,25 @@ partial def decodeE (j : Json) : Except String Expr.E := do
     pure (.bin op (← sub "l") (← sub "r"))
   | x => throw s!"bad E kind {x}"
 
+/-! ### version filter -/
+def decodeVer (j : Json) : Except String (Option Versioning.Ver) :=
+  match j.getObjVal? "ver" with
+  | .ok .null => pure none
+  | .ok v => do pure (some ⟨← getInt v "milli", ← getStr v "key"⟩)
+  | .error _ => pure none
+
+def decodeVOp (j : Json) : Except String Versioning.VOp := do
+  match l2s (← getStr j "o") with
+  | "expanded" => pure (.expanded (← getStr j "name") (← decodeVer j))
+  | "versioned" => pure (.versioned (← getStr j "name") (← decodeVer j))
+  | x => throw s!"bad vop {x}"
+
+def vrunOp (req : Json) : Except String Json := do
+  let ops ← (← getArr req "ops").mapM decodeVOp
+  let fuel ← getNat req "fuel"
+  let (as, _) := Versioning.vrun fuel Gen.files [] ops
+  pure (.arr (as.map (ofRes ofJ)).toArray)
+
 def handle (op : String) (req : Json) : Except String Json := do
   match op with
   | "echo" => pure (ofJ (← getJ req "v"))
@@ -166,6 +187,7 @@ def handle (op : String) (req : Json) : Except String Json := do
   | "findall" => pure (resL (DictUtils.findall (← getBool req "ci") (← getStr req "key") (← getJ req "value") (← getList req "lst")))
   | "findunique" => pure (resL (DictUtils.findunique (← getBool req "ci") (← getStr req "key") (← getList req "lst")))
   | "findkey" => pure (resJ (DictUtils.findkey (← getBool req "ci") (← getJ req "d") (← decodePath req "path")))
+  | "vrun" => vrunOp req
   | "lower" => pure (Json.str (l2s (lower (← getStr req "s"))))
   | _ => throw s!"unknown op {op}"
 
